@@ -4,9 +4,26 @@
 package gnosisaccessnode
 
 // Representation invariant of Storage: stored keyper sets and eon keys are non-nil. It is required by
-// the getters; AddKeyperSet/AddEonKey callers are outside the functions under contract (A-storage).
-//@ pred storageInv(s) := s != nil && (forall k :: has(s.keyperSets, k) ==> s.keyperSets[k] != nil) && (forall k :: has(s.eonKeys, k) ==> s.eonKeys[k] != nil)
+// the getters, established by NewStorage and kept by the setters (proved); that the chain-event handlers call the
+// setters with non-nil values is outside the functions under contract (A-storage).
+//@ pred storageInv(s) := s != nil && s.keyperSets != nil && s.eonKeys != nil && (forall k :: has(s.keyperSets, k) ==> s.keyperSets[k] != nil) && (forall k :: has(s.eonKeys, k) ==> s.eonKeys[k] != nil)
 //@
+//@ // C06 (access node): the keyper set a keys message is checked against is the one stored LAST for its eon - the
+//@ // setters overwrite (a set announced again replaces the earlier one), keep the other eons and the invariant
+//@ func (*Storage).AddKeyperSet
+//@   requires storageInv(s) && keyperSet != nil
+//@   assigns mapobj(s.keyperSets)
+//@   ensures has(s.keyperSets, keyperConfigIndex) && s.keyperSets[keyperConfigIndex] == keyperSet
+//@   ensures forall k :: k != keyperConfigIndex ==> (has(s.keyperSets, k) == old(has(s.keyperSets, k)) && s.keyperSets[k] == old(s.keyperSets[k]))
+//@   ensures storageInv(s)
+//@ func (*Storage).AddEonKey
+//@   requires storageInv(s) && key != nil
+//@   assigns mapobj(s.eonKeys)
+//@   ensures has(s.eonKeys, keyperConfigIndex) && s.eonKeys[keyperConfigIndex] == key
+//@   ensures forall k :: k != keyperConfigIndex ==> (has(s.eonKeys, k) == old(has(s.eonKeys, k)) && s.eonKeys[k] == old(s.eonKeys[k]))
+//@   ensures storageInv(s)
+//@ func NewStorage
+//@   ensures fresh(ret0) && storageInv(ret0) && (forall k :: !has(ret0.keyperSets, k) && !has(ret0.eonKeys, k))
 //@ func (*Storage).GetKeyperSet
 //@   requires storageInv(s)
 //@   ensures ret1 <==> has(s.keyperSets, keyperConfigIndex)
